@@ -394,6 +394,22 @@ LEN_FNS = ('core::slice::<impl [T]>::len', 'core::str::<impl str>::len', 'alloc:
 IS_EMPTY_FNS = ('core::slice::<impl [T]>::is_empty', 'core::str::<impl str>::is_empty')
 
 
+def is_option_branch(e):
+    return isinstance(e, tuple) and e and e[0] == 'call' and (e[1] or '').startswith('<core::option::Option<T> as core::ops::Try>::branch') and len(e[2]) == 1
+
+
+def untry(scrut, label):
+    """a match on Try::branch(opt) is a match on opt: Continue <-> Some, Break <-> None"""
+    if is_option_branch(scrut):
+        m = {'Continue': 'Some', 'Break': 'None'}
+        if isinstance(label, tuple):
+            label = tuple(m.get(x, x) for x in label)
+        else:
+            label = m.get(label, label)
+        return scrut[2][0], label
+    return scrut, label
+
+
 class Resolver:
     def __init__(self, body, max_depth=40):
         self.b = body
@@ -450,6 +466,8 @@ class Resolver:
             return ('len', strip_ref(args[0]))
         if fn in IS_EMPTY_FNS and len(args) == 1:
             return ('is_empty', strip_ref(args[0]))
+        if fn and fn.startswith('<core::option::Option<T> as core::ops::FromResidual<') and fn.endswith('::from_residual'):
+            return ('agg', 'core::option::Option::None', ())         # `?` on None returns None
         return ('call', fn, tuple(args), bi)
 
     def place(self, p, d=0, record=True):
@@ -467,7 +485,11 @@ class Resolver:
             elif isinstance(pe, dict) and 'const_index' in pe:
                 e = ('idx', e, ('c', pe['const_index'], 'usize'))
             elif isinstance(pe, dict) and 'downcast' in pe:
-                e = ('as', e, pe['downcast'])
+                # `x?` on an Option: Try::branch(x) is Continue(v) exactly when x is Some(v)
+                if pe['downcast'] in ('Continue', 'Break') and is_option_branch(e):
+                    e = ('as', e[2][0], 'Some' if pe['downcast'] == 'Continue' else 'None')
+                else:
+                    e = ('as', e, pe['downcast'])
             else:
                 e = ('proj', e, json.dumps(pe, sort_keys=True))
         return e
